@@ -36,11 +36,12 @@ func (s Sec) String() string {
 
 // Scenario is one or two phases of tasks; between phases keys may be cleared.
 type Scenario struct {
-	RW     bool    `json:"rw"`
-	Keys   int     `json:"keys"`
-	Tasks  [][]Sec `json:"tasks"`
-	Clear  []int   `json:"clear,omitempty"`
-	Phase2 [][]Sec `json:"phase2,omitempty"`
+	RW         bool    `json:"rw"`
+	StringKeys bool    `json:"string_keys,omitempty"`
+	Keys       int     `json:"keys"`
+	Tasks      [][]Sec `json:"tasks"`
+	Clear      []int   `json:"clear,omitempty"`
+	Phase2     [][]Sec `json:"phase2,omitempty"`
 	// Clearer > 0: a further task uses a key of its own (index Keys, which nobody
 	// else touches, so nobody holds or awaits it), and calls ClearKey on it after
 	// Clearer-1 yields, while the other tasks hold and await their keys
@@ -125,7 +126,7 @@ func genTasks(r *simrt.Rand, rw bool, keys int, nest bool) [][]Sec {
 
 // Generate implements core.Harness.
 func (H) Generate(r *simrt.Rand, tier string) any {
-	s := &Scenario{RW: r.Intn(2) == 0, Keys: 1 + r.Intn(3)}
+	s := &Scenario{RW: r.Intn(2) == 0, Keys: 1 + r.Intn(3), StringKeys: r.Intn(4) == 0}
 	thorough = tier == "thorough"
 	if r.Intn(4) == 0 {
 		s.Clearer = 1 + r.Intn(12)
@@ -166,7 +167,7 @@ func cloneSecs(in []Sec) []Sec {
 func (H) Shrink(sc any) []any {
 	s := sc.(*Scenario)
 	clone := func() *Scenario {
-		c := &Scenario{RW: s.RW, Keys: s.Keys, Clear: append([]int(nil), s.Clear...), Clearer: s.Clearer}
+		c := &Scenario{RW: s.RW, StringKeys: s.StringKeys, Keys: s.Keys, Clear: append([]int(nil), s.Clear...), Clearer: s.Clearer}
 		for _, t := range s.Tasks {
 			c.Tasks = append(c.Tasks, cloneSecs(t))
 		}
@@ -238,6 +239,50 @@ func (m *mtx) acquire(k int, mode string) bool {
 }
 func (m *mtx) release(k int, mode string) { m.km.UnlockKey(k) }
 func (m *mtx) clear(k int)                { m.km.ClearKey(k) }
+
+// string-keyed instantiations (the empty string is key 0)
+type mtxS struct{ km sync2.KeyedMutex[string] }
+
+func skey(k int) string {
+	if k == 0 {
+		return ""
+	}
+	return fmt.Sprint("key-", k)
+}
+
+func (m *mtxS) acquire(k int, mode string) bool {
+	if mode == "trylock" {
+		return m.km.TryLockKey(skey(k))
+	}
+	m.km.LockKey(skey(k))
+	return true
+}
+func (m *mtxS) release(k int, mode string) { m.km.UnlockKey(skey(k)) }
+func (m *mtxS) clear(k int)                { m.km.ClearKey(skey(k)) }
+
+type rwmS struct{ km sync2.KeyedRWMutex[string] }
+
+func (m *rwmS) acquire(k int, mode string) bool {
+	switch mode {
+	case "trylock":
+		return m.km.TryLockKey(skey(k))
+	case "rlock":
+		m.km.RLockKey(skey(k))
+		return true
+	case "tryrlock":
+		return m.km.TryRLockKey(skey(k))
+	}
+	m.km.LockKey(skey(k))
+	return true
+}
+func (m *rwmS) release(k int, mode string) {
+	if mode == "rlock" || mode == "tryrlock" {
+		m.km.RUnlockKey(skey(k))
+	} else {
+		m.km.UnlockKey(skey(k))
+	}
+}
+func (m *rwmS) clear(k int) { m.km.ClearKey(skey(k)) }
 
 type rwm struct{ km sync2.KeyedRWMutex[int] }
 
@@ -346,9 +391,14 @@ func (H) Execute(scAny any, cfg simrt.Config, st *core.Stats) (*simrt.Outcome, *
 	clearerDone := sc.Clearer == 0
 	r := &run{writers: make([]int, nk), readers: make([]int, nk), witness: make([]int, nk),
 		events: make([][]event, nt), finished: make([]bool, nt), stalled: make([]bool, nt)}
-	if sc.RW {
+	switch {
+	case sc.RW && sc.StringKeys:
+		r.l = &rwmS{}
+	case sc.RW:
 		r.l = &rwm{}
-	} else {
+	case sc.StringKeys:
+		r.l = &mtxS{}
+	default:
 		r.l = &mtx{}
 	}
 	s := simrt.New(cfg)
